@@ -108,7 +108,8 @@ def h2_history(draw: Any) -> Dict[str, Any]:
         if kind == "rejected":
             # a request the server answers itself (no application): idle again from then on
             steps.append({"op": "rejected",
-                          "what": draw(st.sampled_from(["server_name", "ws_no_version"]))})
+                          "what": draw(st.sampled_from(["server_name", "ws_no_version",
+                                                        "ws_early_data"]))})
             continue
         if kind == "stream":
             steps.append({"op": "stream", "delay": draw(st.sampled_from([0.0, T / 2, 3 * T,
@@ -544,6 +545,16 @@ async def run_h2(env: Any, case: Dict[str, Any], app: Any) -> Dict[str, Any]:
                     client.request([(b":method", b"GET"), (b":scheme", b"https"),
                                     (b":authority", b"unknown.invalid"), (b":path", b"/x")],
                                    end_stream=True)
+                elif step["what"] == "ws_early_data":
+                    # WebSocket data before the application has accepted: answered 400
+                    app.programs["/wsearly"] = [["recv"], ["sleep", 1000 * T], ["return"]]
+                    sid = client.request(
+                        [(b":method", b"CONNECT"), (b":protocol", b"websocket"),
+                         (b":scheme", b"https"), (b":authority", b"x"), (b":path", b"/wsearly"),
+                         (b"sec-websocket-version", b"13")], end_stream=False)
+                    await env.settle0()
+                    client.h2.send_data(sid, b"\x81\x80\x00\x00\x00\x00")
+                    client.flush()
                 else:
                     client.request([(b":method", b"CONNECT"), (b":protocol", b"websocket"),
                                     (b":scheme", b"https"), (b":authority", b"x"),
